@@ -18,6 +18,7 @@ import (
 	"bytes"
 	"fmt"
 	"go/format"
+	"go/token"
 	"go/types"
 	"sort"
 	"strconv"
@@ -160,6 +161,8 @@ func (tm *typesMap) newName(typs []types.Type) string {
 	funcName := tm.prefix
 	_, exists := tm.funcToTyps[funcName]
 	_, isreserved := tm.reserved[funcName]
+	// a prefix that is spelled like a keyword cannot be a function name by itself
+	isreserved = isreserved || token.Lookup(funcName).IsKeyword()
 	for exists || isreserved {
 		if i > len(name) {
 			funcName = tm.prefix + "_" + name + strconv.Itoa(i)
